@@ -18,8 +18,8 @@ MANIFEST = {
             "derived dependency-order theorems. Executed on every run: the extracted checker on the structures returned by p?gstrf "
             "for 4 precisions x nprocs{1,2,4,8} x refactorization x workspace modes, and model-vs-C equality for fixupL/countnz.",
     "note": "That every complete run ends in wf_LU (final_state_wf) is not a theorem here (it needs the worker/scheduler model); "
-            "it is enforced at run time by the proved checker on every returned factor. The pre-finalize Glu image of real runs is "
-            "not observable without hook H13; fixupL/countnz are tied on synthetic images.",
+            "it is enforced at run time by the proved checker on every returned factor. fixupL/countnz are tied K-exact on synthetic "
+            "images and on the pre-finalize GlobalLU image of every real run (hook H13).",
     "technique": "Coq proof (sound+complete checker, list-transformer models) + extracted checker on real factors + K-exact on util.c",
 }
 
@@ -225,6 +225,50 @@ def check_runs(ctx, drv, prec, runs, label):
             continue
         wf_inp += "wf %s %s\n" % (c["id"], payload)
         meta[c["id"]] = (c, kind)
+    # K-exact on REAL pre-finalize images (hook H13): the extracted fixupL / countnz applied to the GlobalLU image captured at the
+    # entry of p?gstrf_thread_finalize must give exactly the subscripts, extents and nnz fields the library returns
+    pre_inp, pre_meta = "", {}
+    for cid in meta:
+        pk = cid + "P"
+        if pk not in res:
+            continue
+        t = res[pk]
+        n_, nsuper_, nextu_ = int(t[0]), int(t[1]), int(t[2])
+        vecs, p = [], 3
+        for _ in range(7):
+            k = int(t[p]); vecs.append(t[p + 1:p + 1 + k]); p += 1 + k
+        perm_r_, xsup_, xsup_end_, supno_, lsub_, xlsub_, xlsub_end_ = vecs
+        lvv = lambda v: "%d %s" % (len(v), " ".join(v))
+        pre_inp += "fixupl %sF %d %s %s %s %s %s %s %s\n" % (cid, n_, lvv(perm_r_), lvv(xsup_), lvv(xsup_end_), lvv(supno_), lvv(lsub_),
+                                                            lvv(xlsub_), lvv(xlsub_end_))
+        pre_inp += "countnz %sC %d %s %s %s %s %s %d\n" % (cid, n_, lvv(xsup_), lvv(xsup_end_), lvv(supno_), lvv(xlsub_), lvv(xlsub_end_), nextu_)
+        pre_meta[cid] = (n_, [int(x) for x in xsup_])
+    if pre_inp:
+        rc, pres, err = run_lines(drv, pre_inp)
+        if rc != 0:
+            raise vf.CheckError("extracted fixupL/countnz failed: " + err[-400:])
+        for cid, (n_, xsup_) in pre_meta.items():
+            d = res[cid]                       # info n Lnnz nsuper lenv nzbeg nzend rowind ribeg riend ...
+            p = 5
+            got = []
+            for _ in range(5):
+                k = int(d[p]); got.append([int(x) for x in d[p + 1:p + 1 + k]]); p += 1 + k
+            rowind_, ribeg_, riend_ = got[2], got[3], got[4]
+            # U.nnz follows the three supernode vectors
+            for _ in range(3):
+                k = int(d[p]); p += 1 + k
+            lnnz_, unnz_ = int(d[2]), int(d[p])
+            mt = pres[cid + "F"]
+            q, mv = 0, []
+            for _ in range(3):
+                k = int(mt[q]); mv.append([int(x) for x in mt[q + 1:q + 1 + k]]); q += 1 + k
+            ml, mxl, mxe = mv
+            nextl = mxl[n_]
+            ok = ml[:len(rowind_)] == rowind_ and nextl >= len(rowind_) and all(mxl[f] == ribeg_[f] and mxe[f] == riend_[f] for f in xsup_) \
+                and [int(x) for x in pres[cid + "C"][:2]] == [lnnz_, unnz_]
+            ctx.corr("K-exact:fixupL+countnz on real pre-finalize images (H13)", 1)
+            if not ok:
+                ctx.broken.append("correspondence fixupL/countnz on the pre-finalize image of run %s (%s): model and library disagree" % (cid, prec))
     rc, wres, err = run_lines(drv, wf_inp)
     if rc != 0:
         raise vf.CheckError("extracted checker failed: " + err[-400:])
@@ -349,8 +393,6 @@ def run(ctx):
         "enforced by running the proved-sound-and-complete checker on every returned structure",
         "array capacities behind nzval/rowind are not observable from the returned SuperMatrix: 'inside their arrays' is checked against "
         "the extent actually dumped (max end pointer) for nzval, exact lengths for the index arrays",
-        "the pre-finalize GlobalLU image of real multithreaded runs is not captured (needs hook H13 at pdgstrf_thread_finalize entry); "
-        "fixupL/countnz are tied on synthetic images including the F1 ordering",
     ]
     ctx.cov["trusted_base"] += ["wellformed_harness.c copies the integer arrays of L->Store / U->Store verbatim (rowind_colbeg/colend only at "
                                 "first columns of supernodes, the only entries the library defines)"]
